@@ -67,9 +67,14 @@ def contexts_of(binding):
 
 
 class World(object):
-    def __init__(self, bindings, outcome_of, value_of, two_points=False, under_mid=None, nested=False):
+    def __init__(self, bindings, outcome_of, value_of, two_points=False, under_mid=None, nested=False, derived=None):
         w = self
         w.invoked = []
+        w.derived = dict(enumerate(derived or []))
+
+        class site_datasource(plugins.datasource):      # a component type derived from `datasource` (documented extension point of dr.ComponentType)
+            pass
+        w.site_datasource = site_datasource
 
         class S(sf.SpecSet):
             rp = sf.RegistryPoint()
@@ -127,7 +132,7 @@ class World(object):
                 return None
             impl.__name__ = "rp"
             impl.__symx_order__ = 10 + i
-            ds = plugins.datasource(*deps)(impl)
+            ds = (w.site_datasource if w.derived.get(i) else plugins.datasource)(*deps)(impl)
             cls = sf.SpecSetMeta("I%d" % i, (w.Mid if w.under_mid.get(i) else S,), {"rp": ds, "__module__": __name__})
             w.impls.append(ds)
             w.classes.append(cls)
@@ -200,7 +205,7 @@ def judge(bindings, active, outcomes, w, broker, value_eq):
     return bad
 
 
-def make_o1(k, pool=None, nested=False):
+def make_o1(k, pool=None, nested=False, derived=False):
     pool = pool or BINDINGS[:7]
 
     def o1(en):
@@ -220,10 +225,11 @@ def make_o1(k, pool=None, nested=False):
                 vals[i] = en.fresh_int("v%d" % i)
                 return vals[i]
             mids = [en.flag("under_mid%d" % i) if nested else False for i in range(n)]       # registered in the nested registry or the top one
-            w = World(bindings, outcome_of, value_of, under_mid=mids, nested=nested)
+            der = [en.flag("derived%d" % i) if derived else False for i in range(n)]         # declared with a type derived from `datasource`
+            w = World(bindings, outcome_of, value_of, under_mid=mids, nested=nested, derived=der)
             broker = dr.Broker()
             broker[CTX[active]] = CTX[active]()
-            case = lambda mv: {"bindings": bindings, "active": active, "outcomes": dict((str(i), o) for i, o in chosen.items()), "under_mid": mids, "nested": nested,  # noqa
+            case = lambda mv: {"bindings": bindings, "active": active, "outcomes": dict((str(i), o) for i, o in chosen.items()), "under_mid": mids, "nested": nested, "derived": der,  # noqa
                                "values": dict((str(i), mv.int(v)) for i, v in vals.items())}
             en.note_sample(case)
             with oset.symbolic_order(mode="global"):
@@ -312,6 +318,10 @@ def obligations(tier):
                        desc="implementations bound to no context at all (they cannot be switched off by context: the latest one that left a result supplies the spec) and a nested registry that declares the point again (overriding works by name across both levels; the nested point is the top-level point's oldest implementation)",
                        bounds={"implementations": 3 if thorough else 2, "bindings": ["A", "via-A", "A|B", "B", "free"], "registered in": "the top registry or the nested one, per implementation", "outcomes": OUTCOMES[:1] + ERROR_KINDS + OUTCOMES[2:], "set order": "every global order"},
                        encoded=enc, budget_s=900 if thorough else 120, replay="override", check_sample=True),
+            Obligation("O4-derived-type", make_o1(3 if thorough else 2, ["A", "B", "A|B", "via-A"], False, True), ["latest-wins"],
+                       desc="implementations declared with a component type derived from `datasource` (class site_datasource(datasource)), mixed with plain ones: the same override rule",
+                       bounds={"implementations": 3 if thorough else 2, "bindings": ["A", "B", "A|B", "via-A"], "declared with": "datasource or a subclass of it, per implementation", "outcomes": OUTCOMES[:1] + ERROR_KINDS + OUTCOMES[2:], "set order": "every global order"},
+                       encoded=enc + [plugins.is_datasource, plugins.is_type], budget_s=600 if thorough else 100, replay="override", check_sample=True),
             Obligation("O2-interleaved", make_o2(3 if thorough else 2), ["latest-wins"],
                        desc="registrations interleaved with evaluations: the registry point may be evaluated after any registration (a spec set loaded after an earlier evaluation in the same process); every evaluation is judged against the implementations registered so far",
                        bounds={"implementations": 3 if thorough else 2, "bindings": BINDINGS, "active context": ["A", "B"], "outcomes": OUTCOMES[:1] + ERROR_KINDS + OUTCOMES[2:],
@@ -341,7 +351,7 @@ def _native(case):
                 bad += ["evaluation after %d registration(s): %s" % (i + 1, x)
                         for x in judge(bindings[:i + 1], case["active"], full, w, broker, lambda got, L: got == val(L))]
         return bad
-    w = World(bindings, lambda i: outcomes.get(i, "value"), val, under_mid=case.get("under_mid"), nested=case.get("nested", False))
+    w = World(bindings, lambda i: outcomes.get(i, "value"), val, under_mid=case.get("under_mid"), nested=case.get("nested", False), derived=case.get("derived"))
     broker = dr.Broker()
     broker[CTX[case["active"]]] = CTX[case["active"]]()
     dr.run(both_points(w), broker=broker)
